@@ -93,7 +93,8 @@ func NewFixture(v Variant) *Fixture {
 	pol0 := withSpare(policy.MustConstruct(policy.Equal(".a?", literal.Int(1)), policy.Or(policy.Equal(".b?", literal.Int(2)), policy.Equal(".zz?", literal.Int(0)))))
 	pol1 := withSpare(policy.MustConstruct(policy.LessThanOrEqual(".c?", literal.Int(3))))
 	mk := func(iss, aud *fixtures.Key, pol policy.Policy) *delegation.Token {
-		opts := []delegation.Option{delegation.WithSubject(root.DID), delegation.WithNonce(fixedNonce)}
+		// (a fixed expiration far in the future: whole seconds, so constructed and decoded variants agree)
+		opts := []delegation.Option{delegation.WithSubject(root.DID), delegation.WithNonce(fixedNonce), delegation.WithExpiration(time.Date(2300, 1, 1, 0, 0, 0, 0, time.UTC))}
 		for _, k := range v.Keys {
 			opts = append(opts, delegation.WithMeta(k, "m-"+k))
 		}
@@ -320,6 +321,21 @@ func Ops() []Op {
 			n, _ := args.New().ToIPLD()
 			ok, _ := d.Policy().Match(n)
 			return fmt.Sprint(d.Issuer(), d.Audience(), d.Subject(), d.Command(), hex.EncodeToString(d.Nonce()), d.NotBefore(), d.Expiration(), d.IsValidAt(time.Unix(1, 0)), ok)
+		}},
+		{"dlg0+dlg1.IsValidAt(other-instants)", func(f *Fixture, s Seam) string {
+			// queries about instants after the expiration and long before now
+			far := time.Date(2400, 1, 1, 0, 0, 0, 0, time.UTC)
+			return fmt.Sprint(f.Dlgs[0].IsValidAt(far), f.Dlgs[1].IsValidAt(far), f.Dlgs[0].IsValidAt(time.Unix(0, 0)), f.Dlgs[1].IsValidNow(), f.Inv.IsValidAt(far))
+		}},
+		{"inv.ExecutionAllowedWithArgsHook(violating)", func(f *Fixture, s Seam) string {
+			return errStr(f.Inv.ExecutionAllowedWithArgsHook(loader{f, s}, func(a args.ReadOnly) (*args.Args, error) {
+				point(s)
+				v := args.New()
+				if err := v.Add("a", 999); err != nil {
+					return nil, err
+				}
+				return v, nil
+			}))
 		}},
 	}
 }
